@@ -221,7 +221,11 @@ def main(run):
                         impl[("batch", variant, ci, layout)] = np.array(run_dynamical_matrix_solver_c(
                             dm, np.array([x[1] for x in c["qs"]], dtype="double")))
                     for uo in (0, 1):
-                        impl[("K%d" % uo, variant, ci, layout, tuple(qq))] = U.kernel_direct(c["T"], layout == "compact", arr, qq, uo)
+                        kd = U.kernel_direct(c["T"], layout == "compact", arr, qq, uo)
+                        if kd is None:
+                            run.count("intermediate hook unavailable: C symbol dym_get_dynamical_matrix_at_q", section="correspondence")
+                        else:
+                            impl[("K%d" % uo, variant, ci, layout, tuple(qq))] = kd
     common.switch_variant("omp")
 
     # malformed tables: the model has no value for them (multiplicity 0, address range outside the stored vectors,
@@ -290,7 +294,9 @@ def main(run):
         else:
             keys = [("Py", "omp")]
         for lang, variant in keys:
-            a = impl[(lang, variant, ci, layout, tuple(qq))]
+            a = impl.get((lang, variant, ci, layout, tuple(qq)))
+            if a is None:
+                continue
             ok, d, scale = _close(a, model, float(np.abs(c["fc"]).max()) / float(min(c["T"]["masses"])))
             ncmp += 1
             run.count("%s/%s/%s" % (lang, variant, layout), section="correspondence")
@@ -454,7 +460,12 @@ def main(run):
                                       dict(info, q=list(map(float, qq)), layout=layout, variant=variant))
                     f = qd["frequencies"][n]
                     if variant == "omp" and layout == "full" and len(freq_lines) < (200 if thorough else 40):
-                        ev = np.array(ph.qpoints.eigenvalues[n], dtype="double")
+                        evs = getattr(ph.qpoints, "eigenvalues", None)
+                        if evs is None:  # re-derive from the public dynamical matrices (the same LAPACK call)
+                            run.count("intermediate hook unavailable: QpointsPhonon.eigenvalues", section="correspondence")
+                            ev = np.linalg.eigvalsh(qd["dynamical_matrices"][n]).real
+                        else:
+                            ev = np.array(evs[n], dtype="double")
                         freq_lines.append("freq %s %d %s" % (U.Q(factor), len(ev), " ".join(
                             "%s %s" % (U.Q(float(x)), U.Q(float(np.sqrt(np.abs(x))))) for x in ev)))
                         freq_meta.append((f.copy(), ev, dict(info, q=list(map(float, qq)))))
